@@ -302,6 +302,25 @@ func (f *Fam) Gen(r *rand.Rand, i int) string {
 		if r.Intn(12) == 0 { // a signature for an unrelated key tree
 			sg = signTree(genPK(r, 2), msg)
 		}
+		if r.Intn(12) == 0 {
+			// a private key from its raw bytes and back, both key types, scalars with leading and trailing zero bytes
+			raw := make([]byte, 32)
+			r.Read(raw)
+			switch r.Intn(5) {
+			case 0:
+				raw[0] = 0
+			case 1:
+				raw[0], raw[1] = 0, 0
+			case 2:
+				raw[31] = 0
+			case 3:
+				for i := 0; i < 31; i++ {
+					raw[i] = 0
+				}
+				raw[31] = byte(1 + r.Intn(255))
+			}
+			return fmt.Sprintf("mon.keybytes %s %s", []string{"ed25519", "secp256k1"}[r.Intn(2)], hex.EncodeToString(raw))
+		}
 		if r.Intn(6) == 0 { // the ante handler's signature-depth count on a multisignature key, limits around its size
 			for pk.Leaf() {
 				pk = genPK(r, 3)
@@ -423,6 +442,36 @@ func (f *Fam) Exec(op string) (obs string, fails []common.Failure) {
 			fail("multisig-iff", "C19:multisig-verify", fmt.Sprintf("%s: VerifyBytes=%v, every key signed in its own position=%v", op, ok, want))
 		}
 		return strconv.FormatBool(ok), fails
+	case "mon.keybytes": // C19, implementation side: raw bytes -> private key -> raw bytes, for both key types
+		seed, _ := hex.DecodeString(w[2])
+		var priv crypto.PrivateKey
+		if w[1] == "ed25519" {
+			priv = crypto.Ed25519PrivateKey{}.PrivKeyToPrivateKey(ed25519.GenPrivKeyFromSecret(seed))
+		} else {
+			var k secp256k1.PrivKeySecp256k1
+			copy(k[:], seed) // the scalar itself, leading zero bytes and all
+			priv = crypto.Secp256k1PrivateKey{}.PrivKeyToPrivateKey(k)
+		}
+		back, err := crypto.NewPrivateKeyBz(priv.RawBytes())
+		switch {
+		case err != nil:
+			fail("key-roundtrip", "C19:key-bytes-roundtrip", fmt.Sprintf("%s: the key's own raw bytes are refused: %v", op, err))
+		case !bytes.Equal(back.RawBytes(), priv.RawBytes()):
+			fail("key-roundtrip", "C19:key-bytes-roundtrip", fmt.Sprintf("%s: raw bytes %x come back as %x", op, priv.RawBytes(), back.RawBytes()))
+		case !bytes.Equal(back.PublicKey().RawBytes(), priv.PublicKey().RawBytes()):
+			fail("key-roundtrip", "C19:key-bytes-roundtrip", fmt.Sprintf("%s: the rebuilt key has another public key", op))
+		default:
+			msg := msgBytes(len(seed))
+			sig, err := back.Sign(msg)
+			if err != nil || !priv.PublicKey().VerifyBytes(msg, sig) {
+				fail("key-roundtrip", "C19:key-bytes-roundtrip", fmt.Sprintf("%s: a signature by the rebuilt key does not verify under the original public key (%v)", op, err))
+			}
+		}
+		// the amino form too
+		if b2, err := crypto.PrivKeyFromBytes(priv.Bytes()); err != nil || !bytes.Equal(b2.RawBytes(), priv.RawBytes()) {
+			fail("key-roundtrip", "C19:key-bytes-roundtrip", fmt.Sprintf("%s: amino bytes of the private key do not decode to it (%v)", op, err))
+		}
+		return "done", fails
 	case "depth": // auth.ValidateSignatureDepth(limit, key)
 		limit, _ := strconv.Atoi(w[1])
 		pkT := parseTree(w[2])
